@@ -15,8 +15,11 @@ mp = os.path.join(VERIF, "seeded", sid, "meta.json")
 meta = json.load(open(mp))
 prop = args[1] if len(args) > 1 else meta["breaks_property"]
 tier = args[2] if len(args) > 2 else "quick"
+env = dict(os.environ)
+if meta.get("base_commit"):
+    env["MUTANT_BASE"] = meta["base_commit"]  # the change was written against this commit of /repo (a later repair touches the same lines)
 out = subprocess.run([os.path.join(VERIF, "scripts", "mutant.sh"), "sd-" + sid, os.path.join(VERIF, "seeded", sid, "patch.diff"), prop, tier],
-                     capture_output=True, text=True).stdout
+                     capture_output=True, text=True, env=env).stdout
 lines = [l[:700] for l in out.splitlines()][:4]
 res = "\n".join(lines)
 detected = "VIOLATION" in res
